@@ -114,3 +114,45 @@ pub fn check_consistent(o: &Obs) -> Result<(), String> {
     }
     Ok(())
 }
+
+/// Redirects the process's stderr to a log file while training runs (liblinear and the tag
+/// trainer print progress there); returns a guard that restores it.
+pub struct FdGuard {
+    fd: i32,
+    saved: i32,
+}
+
+/// Redirects stdout and stderr (liblinear prints to stdout through C stdio).
+pub fn redirect_output(log: &str) -> Vec<FdGuard> {
+    [1, 2].into_iter().filter_map(|fd| redirect_fd(fd, &format!("{log}.{fd}"))).collect()
+}
+
+pub fn redirect_fd(target: i32, log: &str) -> Option<FdGuard> {
+    use std::os::unix::io::IntoRawFd;
+    let f = std::fs::OpenOptions::new().create(true).write(true).truncate(true).open(log).ok()?;
+    let fd = f.into_raw_fd();
+    unsafe {
+        use std::io::Write;
+        let _ = std::io::stdout().flush();
+        let saved = libc::dup(target);
+        if saved < 0 {
+            libc::close(fd);
+            return None;
+        }
+        libc::dup2(fd, target);
+        libc::close(fd);
+        Some(FdGuard { fd: target, saved })
+    }
+}
+
+impl Drop for FdGuard {
+    fn drop(&mut self) {
+        unsafe {
+            use std::io::Write;
+            let _ = std::io::stdout().flush();
+            libc::fflush(std::ptr::null_mut());
+            libc::dup2(self.saved, self.fd);
+            libc::close(self.saved);
+        }
+    }
+}
